@@ -35,6 +35,27 @@ HISTORY = {
     "C09/B9-m2": ("missed", "stall-commit broker state + blocked-commit stratum"),
     "C05/B5-m2": ("missed", "page-boundary sweep (first value ends just below a 64 KiB page)"),
     "C06/B6-m2": ("missed", "call kind offsets2 (request split into two sub-requests, first one delayed)"),
+    # round 3
+    "C03/D3-m1": ("missed", "quick tier only (thorough caught it): mixed-topic CommitMessages stratum (gsim Step.Mix)"),
+    "C15/D3-m2": ("missed", "subscribed topic that is created only later (ending event topic-created after the watcher's baseline)"),
+    "C04/D4-m1": ("missed", "TestProducePageBoundary: second record set swept across the 64 KiB page boundary of the encoder"),
+    "C20/D4-m1": ("missed", "value classes a few bytes below / above the true length (true_m2..true_m20, true_half)"),
+    "C16/D5-m2": ("missed", "WritePlan.Post: data written after ReadFrom has returned"),
+    "C06/D6-m1": ("missed", "call kind fetchRecords: records (empty and null keys/values among them) consumed lazily while other calls run"),
+    "C06/D6-m2": ("missed", "second and third Conn used at the same time, batches closed twice, same-shaped records; also uncovered a harness defect (the answer hook rewrote Seek's first/last offset lookups)"),
+    "C07/D7-m2": ("missed", "memnet write stall (peer stops reading mid-request) + wsim fault write-stall + C07 stratum"),
+    "C08/D7-m1": ("missed", "stratum with Writer.BatchBytes left at its default and messages around 1 MiB"),
+    "C08/D7-m2": ("missed", "byte-exact variant of the full-batch stratum (small message, then one of exactly BatchBytes)"),
+    "C11/D9-m2": ("missed", "TestConcurrentEarlyClose (C11) and readEarly + stream-misaligned rule (C06)"),
+    "C19/D9-m1": ("missed", "fake cluster: open transactions / last stable offset; TestListOffsetsIsolation"),
+    "C18/D10-m2": ("missed", "fault cut-raw-auth1 (raw answer ends inside the announced bytes); memnet sinks writes after death like TCP"),
+    "C10/D8-m1": ("pre", "client variant tls-two-addresses"),
+    "C10/D8-m2": ("pre", "batch operation readShort"),
+    "C13/D8-m1": ("pre", "TestCustomHasherSequences (stateful user-supplied hasher)"),
+    "C13/D8-m2": ("pre", "TestLeastBytesLargeTotals (per-partition totals beyond 2^32)"),
+    "C09/D1-m2": ("pre", "small QueueCapacity in reader scenarios (partition readers parked on a full queue)"),
+    "C12/D6-m1": ("pre", "broker id 0"),
+    "C12/D6-m2": ("pre", "change op outage (nothing reachable for longer than the metadata TTL)"),
 }
 
 
